@@ -1,10 +1,12 @@
 (* C16 — the LCD filter simplifies style and layout but keeps the text timeline.
    M = Model/Lcd.v (`lcd cfg d : res doc`, transcription of LCDDocFilter.process and the two clean-up filters),
-   S = Spec/LcdSpec.v.  Every statement is for all documents and all configurations; hypotheses are the
-   well-formedness facts of the canonical model (C15) that the list-based document type does not carry:
-   style dictionaries of regions have unique keys, regions have ids, references name regions of the document.
-   Statements that are false of the faithful model are refuted in Findings/C16.v and proved here as `_partial`
-   under the executable triggers of Model/LcdCases.v. *)
+   S = Spec/LcdSpec.v.  Every statement is for all documents, all configurations and (timeline) all rational times;
+   the hypotheses are the well-formedness facts of the canonical model (C15) that the list-based document type does not
+   carry: style dictionaries of regions have unique keys, regions have unique ids, references name regions of the
+   document, region geometry is of its value class and not in em (style_properties.py validate).
+   Statements that are false of the faithful model are refuted in Findings/C16.v and proved here as `_partial` under
+   the executable triggers of Model/LcdCases.v. *)
+From Coq Require Import Permutation.
 From TT Require Import Proofs.C16.All.
 
 (* no animation step anywhere in the result *)
@@ -16,7 +18,7 @@ Theorem C16_safe_area : forall c d d', lcd c d = Ok d' -> safe_area (c_sa c) d'.
 Proof. exact safe_area_thm. Qed.
 
 (* style keys of elements, regions and initial values are within displayAlign / extent / origin and, as configured,
-   color / backgroundColor / textAlign.
+   color / backgroundColor / textAlign (a configured colour is the only value of its key; textAlign is center unless preserved).
    Full statement (false: Findings/C16.v C16_whitelist_refuted, finding lcd-position-survives):
      forall c d d', lcd c d = Ok d' -> region_keys_unique d -> whitelist (c_pta c) (c_color c) (c_bg c) d'.
    Partial: when tts:position occurs on region elements only. *)
@@ -24,6 +26,11 @@ Theorem C16_whitelist_partial : forall c d d',
   lcd c d = Ok d' -> region_keys_unique d -> trig_position_content d = false ->
   whitelist (c_pta c) (c_color c) (c_bg c) d'.
 Proof. exact whitelist_partial_thm. Qed.
+
+(* merged: the remaining regions are regions of the source and pairwise different in (timing, source writing mode,
+   resulting displayAlign) — the proof shows them different already in (timing, resulting displayAlign) *)
+Theorem C16_merged : forall c d d', lcd c d = Ok d' -> regions_have_ids d -> merged d d'.
+Proof. exact merged_thm. Qed.
 
 (* all references redirected: every region reference of the result names a region of the result *)
 Theorem C16_refs_redirected : forall c d d',
@@ -34,5 +41,63 @@ Proof. exact refs_resolved_thm. Qed.
 Theorem C16_idempotent : forall c d d', lcd c d = Ok d' -> region_keys_unique d -> c_sa c < 50 -> lcd c d' = Ok d'.
 Proof. exact idem_thm. Qed.
 
+(* the filter succeeds.
+   Full statement (false: Findings/C16.v C16_total_refuted_position / _no_body, findings lcd-position, lcd-bg-no-body):
+     forall c d, lcd_typed d = true -> exists d', lcd c d = Ok d'.
+   Partial: no region carries tts:position with an extent that is not already in rh/rw, and bg_color is not configured
+   for a document without body. *)
+Theorem C16_total_partial : forall c d, lcd_typed d = true -> trig_total c d = false -> exists d', lcd c d = Ok d'.
+Proof. exact total_partial_thm. Qed.
+
+(* text timeline: at every time the visible leaves — TTML2 leaf specification of Spec/IsdSpec.v (C01), each leaf tagged with
+   the xml:id of its paragraph — are the same multiset before and after the filter.
+   Full statement (false: Findings/C16.v C16_timeline_refuted_nested / _end_zero, findings lcd-nested-region-conflict,
+   lcd-region-end-zero):
+     forall c d d' t, lcd c d = Ok d' -> regions_have_ids d -> NoDup (rids (d_regions d)) -> refs_in_doc d ->
+       no_hiding_b d = true -> timeline_at d d' t.
+   Partial: no region has end = 0 and no element carries a region attribute below an ancestor associated with another
+   region that the filter merges with it. *)
+Theorem C16_timeline_partial : forall c d d' t,
+  lcd c d = Ok d' -> regions_have_ids d -> NoDup (rids (d_regions d)) -> refs_in_doc d ->
+  no_hiding_b d = true -> trig_end_zero d = false -> trig_nested c d = false ->
+  timeline_at d d' t.
+Proof. exact timeline_thm. Qed.
+(* the same without the tags: the lists C01 proves a snapshot shows, region by region *)
+Theorem C16_timeline_leaves_partial : forall c d d' t,
+  lcd c d = Ok d' -> regions_have_ids d -> NoDup (rids (d_regions d)) -> refs_in_doc d ->
+  no_hiding_b d = true -> trig_end_zero d = false -> trig_nested c d = false ->
+  Permutation (all_leaves_spec d t) (all_leaves_spec d' t).
+Proof. exact timeline_leaves_thm. Qed.
+
+(* the hypotheses are satisfiable by a document on which the filter does something: two regions of equal timing, the second
+   referenced by a division with an animated, styled paragraph; the filter merges them, and the text stays visible *)
+Definition ex_region (i : text) (st : smap) : elem := Elem (mkAttrs KRegion (Some i) None None None st [] false [] []) [].
+Definition ex_doc : doc :=
+  mkDoc [ex_region [114; 48] [(p_Origin, VCoord (mkLen (inject_Z 10) Upct) (mkLen (inject_Z 20) Upct))]; ex_region [114; 49] [(p_WritingMode, VEnum 2)]]
+        (Some (Elem (mkAttrs KBody None None None None [] [] false [] [])
+           [Elem (mkAttrs KDiv None None None (Some [114; 49]) [] [] false [] [])
+              [Elem (mkAttrs KP (Some [112]) (Some (inject_Z 1)) (Some (inject_Z 3)) None [(p_FontStyle, VEnum 1)]
+                             [mkAnim p_Color None (Some (inject_Z 2)) (VColor 255); mkAnim p_Color (Some (inject_Z 2)) None (VColor 65535)] false [] [])
+                 [Elem (mkAttrs KSpan None None None None [] [] false [] []) [Elem (mkAttrs KText None None None None [] [] false [] [104; 105]) []]]]]))
+        [] 15 32 1080 1920 None None [].
+Definition ex_cfg : lcd_cfg := mkCfg 10 false (Some 4294967295) None.
+Example C16_example :
+  lcd_typed ex_doc = true /\ trig_total ex_cfg ex_doc = false /\ trig_position_content ex_doc = false /\
+  no_hiding_b ex_doc = true /\ trig_end_zero ex_doc = false /\ trig_nested ex_cfg ex_doc = false /\
+  region_keys_unique ex_doc /\ regions_have_ids ex_doc /\ NoDup (rids (d_regions ex_doc)) /\ refs_in_doc ex_doc /\
+  exists d', lcd ex_cfg ex_doc = Ok d' /\ Z.of_nat (length (d_regions d')) = 1 /\
+             visible ex_doc (inject_Z 2) = [(Some [112], LText [104; 105])] /\ visible d' (inject_Z 2) = [(Some [112], LText [104; 105])].
+Proof.
+  repeat (split; [vm_compute; reflexivity|]).
+  split. { intros r [<-|[<-|[]]]; cbn; repeat constructor; cbn; intuition discriminate. }
+  split. { intros r [<-|[<-|[]]]; eexists; reflexivity. }
+  split. { cbn. repeat constructor; cbn; intuition discriminate. }
+  split. { intros a r [<-|[<-|[<-|[<-|[<-|[]]]]]] H; cbn in H; try discriminate. inversion H; subst.
+           exists (ex_region [114; 49] [(p_WritingMode, VEnum 2)]). split; [right; left; reflexivity | reflexivity]. }
+  eexists. split; [vm_compute; reflexivity|]. split; [reflexivity|]. split; vm_compute; reflexivity.
+Qed.
+
 Print Assumptions C16_no_anim.  Print Assumptions C16_safe_area.  Print Assumptions C16_whitelist_partial.
-Print Assumptions C16_refs_redirected.  Print Assumptions C16_idempotent.
+Print Assumptions C16_merged.  Print Assumptions C16_refs_redirected.  Print Assumptions C16_idempotent.
+Print Assumptions C16_total_partial.  Print Assumptions C16_timeline_partial.  Print Assumptions C16_timeline_leaves_partial.
+Print Assumptions C16_example.
